@@ -1648,13 +1648,17 @@ class Server:
         return await self.stor(connection, rest, "ab")
 
     async def rest(self, connection, rest):
-        if rest.isascii() and rest.isdigit():
+        try:
+            if not (rest.isascii() and rest.isdigit()):
+                raise ValueError
+            # int() refuses a string of several thousand digits
             connection.restart_offset = int(rest)
-            connection.response("350", f"restarting at {rest}")
-        else:
+        except ValueError:
             connection.restart_offset = 0
-            message = f"syntax error, can't restart at {rest!r}"
+            message = f"syntax error, can't restart at {rest[:64]!r}"
             connection.response("501", message)
+        else:
+            connection.response("350", f"restarting at {rest}")
         return True
 
     async def syst(self, connection, rest):
